@@ -679,7 +679,26 @@ func ruleCLONE1(c *Ctx) {
 			return isIdx && isCall && Callee(p, call) != nil && Callee(p, call).Name() == "Copy"
 		})
 	})
-	c.check(copied, "clone/globals-copied", fd, "every global is stored as g.Copy()", "Clone stores the original's global objects in the clone instead of their copies")
+	// …and no store into the clone's globals is anything else
+	var notCopies []string
+	ast.Inspect(fd.Body, func(n ast.Node) bool {
+		as, ok := n.(*ast.AssignStmt)
+		if !ok {
+			return true
+		}
+		for i, l := range as.Lhs {
+			ix, ok := l.(*ast.IndexExpr)
+			if !ok || !strings.HasSuffix(w.Src(ix.X), ".globals") || i >= len(as.Rhs) {
+				continue
+			}
+			call, isCall := as.Rhs[i].(*ast.CallExpr)
+			if !isCall || Callee(p, call) == nil || Callee(p, call).Name() != "Copy" || len(call.Args) != 0 {
+				notCopies = append(notCopies, w.Src(as))
+			}
+		}
+		return true
+	})
+	c.check(copied && len(notCopies) == 0, "clone/globals-copied", fd, "every global is stored as g.Copy(), and nothing else is stored", "Clone stores the original's global objects in the clone instead of their copies (immutability is shallow: a nested mutable value would be shared between clones): "+strings.Join(notCopies, "; "))
 	// the clone is marked as sharing bytecode
 	fc, _ := f["fullClone"]
 	c.check(fc != nil && w.Src(fc) == "false", "clone/marked-shared", lit, "the clone is marked as sharing bytecode/indexes (fullClone: false)", "a clone that shares bytecode is not marked fullClone=false: ReplaceBuiltinModule would write to shared bytecode")
